@@ -25,7 +25,7 @@ def sh(cmd, **kw):
 
 
 def main():
-    src, prop = sys.argv[1], sys.argv[2]
+    src, prop = os.path.abspath(sys.argv[1]), sys.argv[2]
     checks = sys.argv[3].split(",") if len(sys.argv) > 3 and not sys.argv[3].startswith("--") else [prop]
     tier = sys.argv[sys.argv.index("--tier") + 1] if "--tier" in sys.argv else "quick"
     wt = tempfile.mkdtemp(prefix="labrea-seeded-")
